@@ -211,6 +211,10 @@ def fold(e, env):
             return {"float": float, "int": int, "abs": abs, "max": max, "min": min, "bool": bool}[fn](*args)
         if fn in ("np.sqrt", "math.sqrt"):
             return math.sqrt(args[0])
+        if fn in ("np.ceil", "math.ceil"):
+            return math.ceil(args[0])
+        if fn in ("np.floor", "math.floor"):
+            return math.floor(args[0])
     raise FoldError("cannot fold %s" % t)
 
 
@@ -376,7 +380,9 @@ def seq_elements(e, lens, env):
 def unroll_for(loop, lens, env=None):
     """Per-iteration bindings {loop variable: expression node} of `for <target> in <iter>` for range / enumerate / zip / plain sequences
     whose lengths are known (lens: {name: length}; env: integer values of names used in bounds).  Static unrolling: nothing is executed."""
-    env = env or {}
+    env = dict(env or {})
+    for nm, ln in lens.items():
+        env["len(%s)" % nm] = ln
     it = loop.iter
 
     def items(e):
